@@ -42,7 +42,7 @@ def prepare():
   class _FakeUuid(object):
 
     def __init__(self, n):
-      self.hex = '%032x' % n
+      self.hex = '%016x%016x' % (n, n)
 
     def __str__(self):
       return self.hex
